@@ -263,3 +263,31 @@ MANIFEST_TEXT["C18"] = dict(
     design_ref="DESIGN.md section 4/C18",
     note="Judges membership, section, keys and the configured notes of every entry; the layout (wrapping, column alignment) is deliberately not compared (C17 covers the text block).",
     technique="property-based testing (rapidcheck) with a marker-word counting oracle and an independent visibility model, under ASan/UBSan")
+
+HARNESSES["mt_argh"] = dict(cfg="tsan", sources=["harness/mt_argh.cpp", "harness/argh/real.cpp"], lib_only=ARGH_LIB, threaded=True,
+                            kind_text="rapidcheck-generated per-thread workloads (argh engine) run from 2..16 threads, ThreadSanitizer build")
+HARNESSES["mt_argh_plain"] = dict(cfg="plain", sources=["harness/mt_argh.cpp", "harness/argh/real.cpp"], lib_only=ARGH_LIB, threaded=True,
+                                  kind_text="same workloads in an uninstrumented -O2 build (value oracle at full speed)")
+PROPS["C09"] = dict(
+    units=[dict(harness="mt_argh", mode="threads", quick=dict(cases=700, shards=8, opts=dict(max_repeats=12)),
+                thorough=dict(cases=2500, shards=16, opts=dict(max_repeats=40))),
+           dict(harness="mt_argh_plain", mode="threads", quick=dict(cases=1500, shards=8, opts=dict(max_repeats=40)),
+                thorough=dict(cases=5000, shards=16, opts=dict(max_repeats=100)))],
+    rule="2..16 threads, each with its own generated rule-rich configuration (checks, formats, cardinalities, argument and handler "
+         "constraints, container destinations with per-thread list separators) and its own valid or rule-breaking command line; "
+         "each thread constructs its handler and evaluates the line r times (r generated) after a common start signal and a "
+         "generated per-thread spin delay. Oracle: every repetition in every thread gives the verdict and destination values of "
+         "the same work done alone in the same process; ThreadSanitizer reports nothing (TSan build) - the same cases also run "
+         "in an uninstrumented build for the value oracle at full speed. Non-trivial = >= 2 threads split lists and (they use "
+         "different separators or >= 2 threads register constraints); distinct by case hash.",
+    require_classes=dict(all=["mt.different_list_separators", "mt.concurrent_constraints", "mt.eight_or_more_threads", "mt.broken_line"]),
+    assumptions=DOMAIN_ASSUMPTIONS + ["handlers share no destination variables; only the argv source is used (files and environment are process-global)",
+                                      "schedules are sampled, not enumerated; ThreadSanitizer generalises over races whose two accesses both execute in a run"],
+    wall_cap=dict(quick=600, thorough=3600),
+)
+MANIFEST_TEXT["C09"] = dict(
+    text="Generated independent handler workloads are run concurrently from up to 16 threads, many repetitions each, under ThreadSanitizer and "
+         "in a plain build; per-thread verdicts and destination values must equal the sequential run and TSan must stay silent. " + EXPL,
+    design_ref="DESIGN.md sections 4/C09 and 6",
+    note="Interleavings are sampled (start barrier + generated spin delays + repetitions), not enumerated; TSan flags a race whenever both accesses execute, whatever the observed order. Liveness is not claimed.",
+    technique="property-based testing (rapidcheck) of concurrent workloads: differential against the sequential run + ThreadSanitizer as race monitor")
